@@ -233,6 +233,7 @@ class Sender:
                 Errors.CoordinatorNotAvailableError,
                 Errors.NodeNotReadyError,
                 Errors.RequestTimedOutError,
+                Errors.KafkaConnectionError,
             ):
                 await self.client.force_metadata_update()
                 await asyncio.sleep(self._retry_backoff)
